@@ -20,6 +20,11 @@ BATCHES = {
     "b1": ["CC(=O)OCC>>CCO", "CCO>>CCO"],
     "b2": ["CCC(=O)OC>>CO", "CCBr.[OH-]>>CCO"],
     "b3": ["CC(=O)OC>>CC(=O)O", "CC>>CCC"],
+    # batches with malformed rows: the same valid rows around different / no malformed rows
+    "bm1": ["CC(=O)OCC>>CCO", "CC)O>>CCO", "CCO>>CCO"],
+    "bm2": ["CC(=O)OCC>>CCO", "CC.O", "CCO>>CCO"],
+    "bm3": ["CC(=O)OCC>>CCO", "CCO>>CCO", "C(C>>CC"],
+    "bm4": ["CCC(=O)OC>>CO", "CCO", "CCO", "CCC(=O)OC>>CO"],
 }
 # rows that carry further columns (a previous run's output fed back in, a CSV with metadata): the columns the
 # pipeline passes through (confidence, rules, issue, solved_by) are part of what a run returns
@@ -48,7 +53,13 @@ def rows_of(name, col):
 
 
 def chunks_of(batches, cfgname):
-    return [[b] for b in batches] if CFGS[cfgname]["bs"] else [list(batches)]
+    """the physical batches of the call, each identified by the rows it holds"""
+    col = CFGS[cfgname]["col"]
+    rows = []
+    for b in batches:
+        rows += [json.dumps(r, sort_keys=True) for r in rows_of(b, col)]
+    bs = CFGS[cfgname]["bs"] or len(rows)
+    return [rows[k:k + bs] for k in range(0, len(rows), bs)]
 
 
 def sig(row, col):
